@@ -28,6 +28,9 @@ TECHNIQUE = ("exhaustive enumeration of all (P,S) programs x deviation-bounded p
 RULE = ("[dev] every (P,S) pair x every combination of <=D dimensions off default (ER mode, beta, P dispersity x2, "
         "S.radius_effective dispersity, S parameters, P sizes, volfraction, user radius_effective, 2-D, jitter, magnetic P); "
         "[mesh] P meshes of 101, 132, 11x11, 12x11 points x every effective-radius mode x (1-D, 1-D beta, 2-D); "
+        "[mixed] every pure-Python P x 4 S built with dtype='single' (P double, S single), default + each single deviation, "
+        "judged by the usual recombination with the single-precision S evaluated alone (finite wherever that is) and "
+        "bounded against the double build by MIXED_RTOL[S]; "
         "[reuse] one kernel object evaluated for A then B, B differing in exactly one setting, both orders; "
         "non-trivial = S(q) differs from 1 by >1e-6 at some q and the result is finite")
 ASSUMPTIONS = [
@@ -77,6 +80,7 @@ def is_py(name):
 def setup(ctx):
     names = [m for m in p_models(ctx) + S_MODELS if not is_py(m)]
     bad = build.prebuild(ctx, names)
+    bad.update(build.prebuild(ctx, S_MODELS, dtype="single"))       # for the mixed-precision family
     if bad:
         raise HarnessError("models failed to build: %r" % bad)
 
@@ -193,8 +197,18 @@ def _reuse_cases(ctx, p, s):
             yield {"kind": "reuse", "P": p, "S": s, "change": ch, "A": b, "cfg": a}
 
 
+def _mixed_cases(ctx):
+    """pure-Python P (always double) @ S with the model built in single precision: P and S differ in precision"""
+    for p in p_models(ctx):
+        if not is_py(p):
+            continue
+        for s in S_MODELS:
+            for k, c in deviations(_dims(ctx, p, s), 1):
+                yield {"kind": "mixed", "P": p, "S": s, "dev": k, "cfg": c}
+
+
 def cases(ctx):
-    out = []
+    out = list(_mixed_cases(ctx))
     for p in p_models(ctx):
         if ctx.quick:
             D = 3 if p in QUICK_P else 2
@@ -225,6 +239,13 @@ def _kernel(name, dim):
     key = (name, dim)
     if key not in _KC:
         _KC[key] = build.model(name).make_kernel(_q(dim))
+    return _KC[key]
+
+
+def _single_s_kernel(name, dim):
+    key = (name, dim, "single")
+    if key not in _KC:
+        _KC[key] = _single_model(name).make_kernel(_q(dim))
     return _KC[key]
 
 
@@ -265,6 +286,8 @@ def run_case(case, ctx):
     from sasmodels.direct_model import call_kernel
     r = R()
     kind = case.get("kind", "dev")
+    if kind == "mixed":
+        return _judge_mixed(r, case["P"], case["S"], case["cfg"])
     if kind != "reuse":
         return _judge(r, case["P"], case["S"], case["cfg"])
     # one kernel object, evaluated for A and then for B
@@ -280,6 +303,54 @@ def run_case(case, ctx):
     shown = {k: v for k, v in pars_a.items() if k_ps.info.parameters.defaults.get(k) != v}
     return _judge(r, case["P"], case["S"], b_cfg, k_ps=k_ps,
                   reuse=(case["change"], "same kernel object evaluated first with non-default pars=%s, then: " % shown))
+
+
+# 10 x the worst relative difference between the dtype='single' and the double build of the same P@S measured on the
+# reference tree over seeds 0-2 (hardsphere 4.0e-5, hayter_msa 0.33 [single-precision hayter_msa alone is that far from
+# double at q=0.003], squarewell 4.7e-3, stickyhardsphere 3.5e-6).  The sharp check is the recombination with the
+# SINGLE-precision S evaluated alone; this table only bounds the distance to the double build.
+MIXED_RTOL = {"hardsphere": 4e-4, "hayter_msa": 3.4, "squarewell": 5e-2, "stickyhardsphere": 3.5e-5}
+_SINGLE = {}
+
+
+def _single_model(expr):
+    from sasmodels import core
+    if expr not in _SINGLE:
+        _SINGLE[expr] = core.load_model(expr, dtype="single", platform="dll")
+    return _SINGLE[expr]
+
+
+def mixed_diff(pname, sname, cfg):
+    """(pars, I from the single-precision build, I from the double build) of one configuration"""
+    from sasmodels.direct_model import call_kernel
+    st = _pars(pname, sname, cfg)
+    expr, dim, pars = st["expr"], st["dim"], st["pars"]
+    k_single = _single_model(expr).make_kernel(_q(dim))
+    k_double = st["ps_model"].make_kernel(_q(dim))
+    single = np.array(call_kernel(k_single, dict(pars)), float)
+    double = np.array(call_kernel(k_double, dict(pars)), float)
+    return st, k_single, single, double
+
+
+def _judge_mixed(r, pname, sname, cfg):
+    st, k_single, single, double = mixed_diff(pname, sname, cfg)
+    expr = st["expr"]
+    p_dtype, s_dtype = str(k_single.p_kernel.dtype), str(k_single.s_kernel.dtype)
+    if p_dtype == s_dtype:
+        raise HarnessError("%s built with dtype=single does not mix precisions (%s, %s)" % (expr, p_dtype, s_dtype))
+    desc = ("load_model(%r, dtype='single') [P %s, S %s]; " % (expr, p_dtype, s_dtype)) + st["desc"]
+    fk = {"model": expr, "clause": "mixed-precision"}
+    br = ["mixed-precision", "mixed-precision:" + sname]
+    both = np.isfinite(double) & np.isfinite(single)
+    tol = MIXED_RTOL[sname]
+    with np.errstate(all="ignore"):
+        rel = np.abs(single - double) / np.abs(double)
+    if np.any(both & ~(rel <= tol)):
+        return r.fail("%s\n  single build=%s\n  double build=%s\n  relative difference %s > %g"
+                      % (desc, single, double, rel, tol), fk, branches=br)
+    r.branches.update(br)
+    # sharp: P alone (double) recombined with the single-precision S alone; finite wherever that reference is finite
+    return _judge(r, pname, sname, cfg, single=True)
 
 
 def _pars(pname, sname, cfg):
@@ -371,7 +442,7 @@ def _pars(pname, sname, cfg):
     return locals()
 
 
-def _judge(r, pname, sname, cfg, k_ps=None, reuse=None):
+def _judge(r, pname, sname, cfg, k_ps=None, reuse=None, single=False):
     from sasmodels.direct_model import call_kernel, call_Fq
     st = _pars(pname, sname, cfg)
     expr, dim, pinfo, ps_model = st["expr"], st["dim"], st["pinfo"], st["ps_model"]
@@ -384,6 +455,10 @@ def _judge(r, pname, sname, cfg, k_ps=None, reuse=None):
         desc = reuse[1] + desc
         br.append("reuse")
         br.append("reuse:" + reuse[0])
+    if single:
+        fk["precision"] = "P double, S single"
+        desc = "load_model(%r, dtype='single'); " % expr + desc
+        k_ps = _single_model(expr).make_kernel(_q(dim))
     if k_ps is None:
         k_ps = ps_model.make_kernel(_q(dim))
     want_refusal = bool(beta and dim == "2d")
@@ -423,7 +498,7 @@ def _judge(r, pname, sname, cfg, k_ps=None, reuse=None):
     F2 = np.array(F2, float)
     F1 = None if F1 is None else np.array(F1, float)
     # ---- S alone
-    k_s = _kernel(sname, dim)
+    k_s = _kernel(sname, dim) if not single else _single_s_kernel(sname, dim)
     reff_used = float(reff_p) if mode > 0 else user_reff
     s_call = dict(spars, scale=1.0, background=0.0)
     s_call["radius_effective"] = reff_used
@@ -560,6 +635,9 @@ def _call_par(info, name):
 def finish(ctx, report):
     report.require("mesh>100-modeP-Fq1d", 50, "P mesh beyond the 100-point driver chunk, R_eff from P, <F>/<F^2> kernel, 1-D")
     report.require("mesh>100-modeP", 100, "P mesh beyond the 100-point driver chunk, R_eff from P")
+    report.require("mixed-precision", 200, "double-precision (pure-Python) P with single-precision S")
+    for sname in S_MODELS:
+        report.require("mixed-precision:" + sname, 40, "mixed precision with " + sname)
     report.require("reuse", 500, "second evaluation of one kernel object")
     report.require("reuse-P-changed-modeP", 50, "P size/dispersity changed between evaluations, R_eff from P")
     report.require("reuse-hollow-mode0", 20, "hollow P at mode 0 re-evaluated")
